@@ -107,6 +107,46 @@ theorem loopOver_foldl {α β} (f : State F → α → State F) (xs : List α) (
     rw [← hv]
     exact ih (fun st y hy => hstep st y (by simp [hy])) _ hc hgd
 
+theorem afterBody_err (s : State F) (m : String) (h : s.ctl = .err m) : afterBody s = s := by
+  simp [afterBody, h]
+
+theorem afterLoop_err (s : State F) (m : String) (h : s.ctl = .err m) : afterLoop s = s := by
+  simp [afterLoop, h]
+
+/-- a loop whose iterations `0 … m-1` run normally (keeping `Good`) and whose iteration `m` stops the program with
+    an error ends with that error -/
+theorem loopOver_err {α} (f : State F → α → State F) (xs : List α) (Good : State F → Prop) (msg : String)
+    (m : Nat) (hm : m < xs.length)
+    (hstep : ∀ (st : State F) (i : Nat) (hi : i < m), st.ctl = .run → Good st →
+      (f st (xs[i]'(Nat.lt_trans hi hm))).ctl = .run ∧ Good (f st (xs[i]'(Nat.lt_trans hi hm))))
+    (herr : ∀ st : State F, st.ctl = .run → Good st → (f st xs[m]).ctl = .err msg)
+    (s : State F) (h0 : s.ctl = .run) (hg : Good s) :
+    (loopOver f xs s).ctl = .err msg := by
+  induction xs generalizing m s with
+  | nil => simp at hm
+  | cons x xs ih =>
+    rw [loopOver_cons _ _ _ _ h0]
+    cases m with
+    | zero =>
+      have he := herr s h0 hg
+      simp only [List.getElem_cons_zero] at he
+      rw [afterBody_err _ _ he]
+      simp only [he]
+      rw [afterLoop_err _ _ he]; exact he
+    | succ m =>
+      obtain ⟨hc, hgd⟩ := hstep s 0 (by omega) h0 hg
+      simp only [List.getElem_cons_zero] at hc hgd
+      rw [afterBody_run _ hc]
+      simp only [hc, if_true]
+      exact ih m (by simpa using hm)
+        (fun st i hi hst hgs => by
+          have := hstep st (i + 1) (by omega) hst hgs
+          simpa using this)
+        (fun st hst hgs => by
+          have := herr st hst hgs
+          simpa using this)
+        _ hc hgd
+
 /-! ### non-negative integer indices -/
 
 theorem normIdx_nonneg (i : Int) (n : Nat) (h : 0 ≤ i) : normIdx i n = i := by
